@@ -665,6 +665,9 @@ def fam_c17(tier, seed):
     b2 = list(sk.bs_family(2, 2, [0, 30], need_sell=True))
     for l in sk.with_events(b2, ("D", "X", "C", "M", "U"), [0, 1], ratios=("2",), max_events=1):
         sks.append(mk(i, "t", l, base=BASES[2], wit=WIT, mode="PF")); i += 1
+    # tax-year labels whose two-digit end needs its leading zero or wraps the century (2008/09, 1999/00, 2099/00, 1900/01, 2100/01)
+    for base in ("2008-06-01", "1999-06-01", "2099-06-01", "1900-06-01", "2100-03-20", "2009-03-07"):
+        sks.append(mk(i, "y", [["B", "A", 0], ["S", "A", 1]] + ([["S", "A", 31]] if base == "2009-03-07" else []), base=base, wit=WIT, mode="PF")); i += 1
     # event amounts in a foreign currency are echoed in that currency (USD: 2 minor units, JPY: 0)
     for cur in ("USD", "JPY", "EUR"):
         for k in "DCM":
